@@ -8,6 +8,9 @@ use crate::refmodel::{self, RunFail};
 use crate::report::{self, Report, Violation};
 use serde_json::json;
 
+/// Python outputs of acyclic graphs, judged by importing them with CPython at the end: (module text, replay detail, signature tail)
+static PY_MODULES: std::sync::Mutex<Vec<(String, serde_json::Value, String)>> = std::sync::Mutex::new(Vec::new());
+
 const LANGS: [Lang; 5] = [Lang::TypeScript, Lang::Kotlin, Lang::Swift, Lang::Go, Lang::Python];
 const CARRIERS: [&str; 11] = ["direct", "vec", "option", "map-value", "map-key", "array", "slice", "generic-arg", "box", "option-vec", "generic-arg-nested"];
 const NODE_KINDS: [&str; 5] = ["struct", "enum-newtype", "enum-struct-variant", "alias", "const"];
@@ -228,6 +231,9 @@ pub fn check_graph(g: &Graph, lang: Lang, choices: &[u32], family: &str, acc: &m
             }
         }
     }
+    if lang == Lang::Python && acyclic && g.n_edges() > 0 && g.kinds.iter().any(|k| *k == "alias") {
+        PY_MODULES.lock().unwrap().push((ok.text.clone(), base.clone(), format!("carrier={}|kinds={kinds}|renamed={}", g.carrier, g.renamed.is_some() as u8)));
+    }
     acc.outcomes.insert(report::fnv64(&format!("{}|{acyclic}|{order_ok}|{}", lang.name(), ok.out.defs.iter().map(|d| d.name()).collect::<Vec<_>>().join(","))));
     if acc.samples.len() < 2 && acyclic && g.n >= 3 && g.n_edges() >= 3 {
         acc.sample(json!({"lang": lang.name(), "edges": g.edges, "carrier": g.carrier, "definition_order": ok.out.defs.iter().map(|d| d.name().to_string()).collect::<Vec<_>>()}));
@@ -420,6 +426,35 @@ pub fn run(args: &[String]) -> i32 {
             u64::MAX,
         );
         merge(&mut rep, "families_5_to_12", accs, &stats, json!({"families": ["chain", "reversed chain", "star-in", "star-out", "diamond ladder", "3-cycle with tail", "two disjoint cycles"], "sizes": format!("5..={max_n}"), "rotations": "every rotation of the name labeling", "carriers": ["direct", "vec"]}));
+    }
+    // (c) eagerly evaluated Python: the module of every acyclic graph with aliases / unions must import
+    {
+        let mods = std::mem::take(&mut *PY_MODULES.lock().unwrap());
+        let mut uniq: std::collections::BTreeMap<String, String> = Default::default();
+        let mut meta: std::collections::BTreeMap<String, (serde_json::Value, String)> = Default::default();
+        for (text, detail, tail) in mods {
+            let id = format!("g_{:016x}", report::fnv64(&text));
+            uniq.entry(id.clone()).or_insert(text);
+            meta.entry(id).or_insert((detail, tail));
+        }
+        match crate::pybatch::check_modules(&uniq) {
+            Ok(res) => {
+                let mut bad = 0u64;
+                for (id, v) in &res {
+                    if !v.ok {
+                        bad += 1;
+                        let (detail, tail) = &meta[id];
+                        let mut d = detail.clone();
+                        d["cpython"] = json!({"stage": v.stage, "error": v.error});
+                        let class = v.error.split(':').next().unwrap_or("");
+                        rep.vios.add(Violation { sig: format!("C11|python|module-does-not-import:{}:{class}|{tail}", v.stage), detail: d });
+                    }
+                }
+                rep.cov("python_import_of_acyclic_graphs", json!({"modules": uniq.len(), "failing": bad, "checker": "python3 py/batch_check.py (ast.parse + exec under pystub/pydantic)"}));
+                rep.cov_add("evaluations", uniq.len() as u64);
+            }
+            Err(e) => rep.machinery(e),
+        }
     }
     require_nonvacuous(&mut rep);
     rep.cov("rule", json!("every labelled digraph (self loops included) on ≤ 3 nodes for every edge carrier and every node-kind assignment, every digraph on 4 nodes, and seven parametric families up to 12 nodes under every rotation of the labeling; each graph is rendered as items referring to each other, generated for the five backends that share the ordering, and the definition order recovered from the output is checked: permutation (every item exactly once) always, topological order when the graph is acyclic. non-trivial = graph has at least one edge."));
